@@ -133,6 +133,12 @@ Definition sign_run (accounts : list bytes) (raws : list bytes) (a : bytes) (t :
     end
   else Err ESign.
 
+(* a wallet that always signs for a held address (with bytes that mean nothing): used only to COUNT
+   the raw-transaction frames the request demands of a working wallet — the key directory of the
+   harness holds a valid key for every account *)
+Definition sign_dummy (accounts : list bytes) (a : bytes) (t : transaction) (chain : Z) : res bytes :=
+  if existsb (bytes_eqb a) accounts then Ok [] else Err ESign.
+
 (* the raw transactions submitted to the backend *)
 Definition raws_of (frames : list frame) : list bytes :=
   flat_map (fun f => if bytes_eqb (f_method f) (bs "eth_sendRawTransaction") then
@@ -239,6 +245,15 @@ Definition ids_oracle (req resp : json) : bool :=
                          end) (combine ms rs)
   else true.
 
+(* every member of the reply to a well-formed request is an object carrying a result or an error *)
+Definition result_or_error_oracle (req resp : json) : bool :=
+  if wellformed_request req then
+    forallb (fun r => match get_member "result" r, get_member "error" r with
+                      | None, None => false
+                      | _, _ => true
+                      end) (member_list resp)
+  else true.
+
 Definition special_method (m : bytes) : bool :=
   bytes_eqb m (bs "eth_accounts") || bytes_eqb m (bs "personal_accounts") || bytes_eqb m (bs "eth_sendTransaction").
 
@@ -317,7 +332,13 @@ Definition check_case (c : case) : N :=
       match fst (Start parse_int_run (backend_table tb) configured) with
       | Ok chain =>
           (* oracles on the implementation alone *)
-          if match req, rep with
+          if (status =? 0)%N then 16
+          else if match req, rep with
+             | Some q, Some p => negb (result_or_error_oracle q p)
+             | Some q, None => negb (result_or_error_oracle q JNull)
+             | _, _ => false
+             end then 15
+          else if match req, rep with
              | Some q, Some p => negb (ids_oracle q p)
              | Some q, None => negb (ids_oracle q JNull)
              | _, _ => false
@@ -325,18 +346,24 @@ Definition check_case (c : case) : N :=
           else if match req with Some q => negb (passthrough_oracle q obs) | None => false end then 12
           else if match req, rep with Some q, Some p => negb (accounts_oracle accounts q p) | _, _ => false end then 13
           else
+          if match rpcHandler parse_int_run (fun _ => req) accounts (sign_dummy accounts)
+                             (backend_table tb) chain (bexpand prefix) order with
+             | Ok (_, _, traces) => negb (count_raw (concat traces) =? count_raw obs)%nat
+             | _ => false
+             end then 10          (* a raw transaction was submitted that must not be, or one is missing *)
+          else
           match rpcHandler parse_int_run (fun _ => req) accounts (sign_run accounts (raws_of obs))
                            (backend_table tb) chain (bexpand prefix) order with
           | Ok (st, body, traces) =>
               let sent := concat traces in
-              if negb (count_raw sent =? count_raw obs)%nat then 10           (* a raw transaction submitted that must not be, or one missing / not recovering *)
+              if negb (count_raw sent =? count_raw obs)%nat then 10           (* a submitted raw transaction does not recover to the requested from / fields / nonce / chain id *)           (* a raw transaction submitted that must not be, or one missing / not recovering *)
               else if negb (st =? status)%N then 1
               else if negb (match rep with Some p => tree_match body p | None => false end) then 2
               else if negb (multiset_eq sent obs) then 3
               else if negb (forallb (fun tr => ordered_in tr obs) traces) then 14
               else 0
           | Err _ => 5
-          | Panic => if (status =? 0)%N then 0 else 5
+          | Panic => 5
           end
       | _ => 4
       end
